@@ -6,6 +6,12 @@ use crate::rng::Rng;
 use netflow_parser::NetflowParser;
 use std::collections::HashSet;
 
+/// the set of all 65 536 version numbers (built once per process, cloned per use)
+pub fn all_versions() -> HashSet<u16> {
+    static ALL: std::sync::OnceLock<HashSet<u16>> = std::sync::OnceLock::new();
+    ALL.get_or_init(|| (0..=65535u16).collect()).clone()
+}
+
 #[derive(Clone, Debug)]
 pub enum Allowed {
     Default,
@@ -36,7 +42,7 @@ impl Allowed {
         match self {
             Allowed::Default => {}
             Allowed::Set(v) => p.allowed_versions = v.iter().cloned().collect::<HashSet<u16>>(),
-            Allowed::All => p.allowed_versions = (0..=65535u16).collect(),
+            Allowed::All => p.allowed_versions = all_versions(),
         }
     }
     pub fn shape(&self) -> String {
